@@ -128,6 +128,9 @@ def _lower_one_match(st: ast.Match, taken: Set[str]) -> Optional[List[ast.stmt]]
             if case.guard is not None:
                 g = _SubstNames({n: e for n, e in caps}).visit(copy.deepcopy(case.guard))
                 t = g if t is None else ast.BoolOp(op=ast.And(), values=[t, g])
+            # a capture nobody reads in the case body (it only served the guard, where it is written as its path) is not bound
+            used_in_body = {x.id for b_ in case.body for x in ast.walk(b_) if isinstance(x, ast.Name)}
+            caps = [(n, e) for n, e in caps if n in used_in_body]
             if caps:
                 # a capture that is bound although the guard fails is visible afterwards in a match; here it is bound
                 # only when the case is taken.  Refuse when a captured name is used outside this case.
@@ -636,4 +639,163 @@ def strip_casts(tree: ast.Module) -> List[str]:
     if t.n:
         ast.fix_missing_locations(tree)
         return [f"{t.n} typing.cast(T, e) call(s) read as e"]
+    return []
+
+
+# --------------------------------------------------------------------------- L6 new helper modules
+
+
+def merge_new_modules(trees: Dict[str, ast.Module], known_modules: Set[str]) -> Dict[str, List[str]]:
+    """A module the reference does not know, made only of imports, function definitions and constant bindings, whose names
+    are imported `from .<module> import a, b` by a known module: its body is copied into the importer (in front of the
+    importer's first definition), the import is dropped.  Functions and constants mean the same wherever they are defined;
+    the copied helpers are then ordinary new helpers of the importer."""
+    log: Dict[str, List[str]] = {}
+    for new_name, nt in trees.items():
+        if new_name in known_modules or "." in new_name and new_name.split(".")[0] in ("_ply",):
+            continue
+        body = [st for st in nt.body if not (isinstance(st, ast.Expr) and isinstance(st.value, ast.Constant))]
+        simple = all(isinstance(st, (ast.Import, ast.ImportFrom, ast.FunctionDef)) or
+                     (isinstance(st, (ast.Assign, ast.AnnAssign)) and getattr(st, "value", None) is not None and
+                      not any(isinstance(x, (ast.Call, ast.List, ast.Dict, ast.Set, ast.ListComp, ast.DictComp, ast.SetComp)) and not (isinstance(x, ast.Call) and ast.unparse(x.func).startswith(("typing.", "re.compile", "frozenset"))) for x in ast.walk(st.value)))
+                     for st in body)
+        if not body or not simple:
+            continue
+        defined = set()
+        for st in body:
+            if isinstance(st, ast.FunctionDef):
+                defined.add(st.name)
+            elif isinstance(st, (ast.Assign, ast.AnnAssign)):
+                for t in (st.targets if isinstance(st, ast.Assign) else [st.target]):
+                    if isinstance(t, ast.Name):
+                        defined.add(t.id)
+        leaf = new_name.split(".")[-1]
+        for imp_name, it in trees.items():
+            if imp_name == new_name or imp_name not in known_modules:
+                continue
+            for k, st in enumerate(list(it.body)):
+                if not (isinstance(st, ast.ImportFrom) and st.level >= 1 and st.module == leaf and all(a.asname is None and a.name in defined for a in st.names)):
+                    continue
+                own = set()
+                for x in it.body:
+                    if isinstance(x, (ast.FunctionDef, ast.ClassDef)):
+                        own.add(x.name)
+                    elif isinstance(x, (ast.Assign, ast.AnnAssign)):
+                        for t in (x.targets if isinstance(x, ast.Assign) else [x.target]):
+                            if isinstance(t, ast.Name):
+                                own.add(t.id)
+                if own & defined:
+                    continue
+                have_imports = {ast.unparse(x) for x in it.body if isinstance(x, (ast.Import, ast.ImportFrom))}
+                copied = [copy.deepcopy(b) for b in body if not (isinstance(b, (ast.Import, ast.ImportFrom)) and (ast.unparse(b) in have_imports or (isinstance(b, ast.ImportFrom) and b.module == "__future__")))]
+                # relative imports of the new module keep their meaning only at the same package level
+                if new_name.count(".") != imp_name.count("."):
+                    continue
+                it.body[k:k + 1] = copied
+                log.setdefault(imp_name, []).append(f"new module {new_name} ({', '.join(sorted(defined))}) read as part of this module")
+                break
+    for t in trees.values():
+        ast.fix_missing_locations(t)
+    return log
+
+
+# --------------------------------------------------------------------------- L7 getattr with a constant name
+
+
+class _FoldGetattr2(ast.NodeTransformer):
+    def __init__(self):
+        self.n = 0
+
+    def visit_Call(self, c: ast.Call):
+        self.generic_visit(c)
+        if isinstance(c.func, ast.Name) and c.func.id == "getattr" and len(c.args) == 2 and not c.keywords and isinstance(c.args[1], ast.Constant) \
+                and isinstance(c.args[1].value, str) and c.args[1].value.isidentifier() and not c.args[1].value.startswith("__"):
+            self.n += 1
+            return ast.copy_location(ast.Attribute(value=c.args[0], attr=c.args[1].value, ctx=ast.Load()), c)
+        return c
+
+
+def fold_getattr(tree: ast.Module) -> List[str]:
+    """`getattr(x, "name")` (two arguments, a constant identifier) is `x.name`"""
+    t = _FoldGetattr2()
+    for fn in list(_functions(tree)):
+        if any(isinstance(x, ast.FunctionDef) and x is not fn and x.name == "getattr" for x in ast.walk(fn)):
+            continue
+        t.visit(fn)
+    if t.n:
+        ast.fix_missing_locations(tree)
+        return [f"{t.n} getattr(x, 'name') call(s) read as x.name"]
+    return []
+
+
+# --------------------------------------------------------------------------- L8 keyword arguments of constructor calls
+
+
+def positional_constructor_arguments(trees: Dict[str, ast.Module]) -> Dict[str, List[str]]:
+    """`K(parent=a, location=b, namespace=c)` for a package class K with an explicit `__init__(self, parent, location,
+    namespace)` is `K(a, b, c)` when the keywords are written in parameter order and fill the leading parameters without
+    a gap (arguments are evaluated in the order written either way).  Dataclasses (no explicit __init__) are left alone."""
+    sigs: Dict[str, List[str]] = {}
+    dup: Set[str] = set()
+    for t in trees.values():
+        for c in t.body:
+            if not isinstance(c, ast.ClassDef):
+                continue
+            for m in c.body:
+                if isinstance(m, ast.FunctionDef) and m.name == "__init__" and not m.args.vararg and not m.args.kwarg and not m.args.kwonlyargs and not m.args.posonlyargs:
+                    if c.name in sigs:
+                        dup.add(c.name)
+                    sigs[c.name] = [a.arg for a in m.args.args[1:]]
+    for d in dup:
+        sigs.pop(d, None)
+    log: Dict[str, List[str]] = {}
+    for name, t in trees.items():
+        n = 0
+        for c in ast.walk(t):
+            if not (isinstance(c, ast.Call) and c.keywords and all(k.arg for k in c.keywords)):
+                continue
+            cn = c.func.id if isinstance(c.func, ast.Name) else (c.func.attr if isinstance(c.func, ast.Attribute) and isinstance(c.func.value, ast.Name) else None)
+            if cn not in sigs or any(isinstance(a, ast.Starred) for a in c.args):
+                continue
+            params = sigs[cn]
+            want = params[len(c.args):len(c.args) + len(c.keywords)]
+            if [k.arg for k in c.keywords] != want:
+                continue
+            c.args = list(c.args) + [k.value for k in c.keywords]
+            c.keywords = []
+            n += 1
+        if n:
+            log[name] = [f"{n} constructor call(s) with keyword arguments in parameter order written positionally"]
+    return log
+
+
+# --------------------------------------------------------------------------- L9 identity tests of booleans
+
+
+class _BoolIdentity(ast.NodeTransformer):
+    def __init__(self):
+        self.n = 0
+
+    def visit_Compare(self, c: ast.Compare):
+        self.generic_visit(c)
+        if len(c.ops) == 1 and isinstance(c.ops[0], (ast.Is, ast.IsNot)) and isinstance(c.comparators[0], ast.Constant) and isinstance(c.comparators[0].value, bool):
+            inner = c.left
+            # membership and identity tests always give a bool: `(a in b) is False` is `not (a in b)`
+            if isinstance(inner, ast.Compare) and len(inner.ops) == 1 and isinstance(inner.ops[0], (ast.In, ast.NotIn, ast.Is, ast.IsNot)):
+                want_true = c.comparators[0].value is isinstance(c.ops[0], ast.Is)
+                self.n += 1
+                if want_true:
+                    return inner
+                flip = {ast.In: ast.NotIn, ast.NotIn: ast.In, ast.Is: ast.IsNot, ast.IsNot: ast.Is}[type(inner.ops[0])]
+                return ast.copy_location(ast.Compare(left=inner.left, ops=[flip()], comparators=inner.comparators), c)
+        return c
+
+
+def simplify_bool_identity(tree: ast.Module) -> List[str]:
+    t = _BoolIdentity()
+    for fn in list(_functions(tree)):
+        t.visit(fn)
+    if t.n:
+        ast.fix_missing_locations(tree)
+        return [f"{t.n} `(a in b) is False/True` test(s) written as membership tests"]
     return []
